@@ -142,7 +142,9 @@ def check_row_prog(cx, u, A, L, i, js, lst):
                     cx.vio(f"{f}:{key}", f"{f.split()[0]}: {f} on x = {lit_key(a)}, y = {lit_key(b)} is "
                                          f"{str(res)[:60]}, neither of the two", case)
                     continue
-                if not lt and not gt and A[i] is not L[j] and (res is A[i]) != (first == "x"):
+                # (the two-argument form answers its second argument for equal ones, the scan over a
+                # list the first: neither is named by the statement; the list form is compared as drift)
+                if "list" in f and not lt and not gt and A[i] is not L[j] and (res is A[i]) != (first == "x"):
                     cx.run.drift("min-max-of-equal-elements-is-not-the-first", {"form": f, "x": lit_key(a),
                                                                                 "y": lit_key(b)})
         else:
@@ -605,7 +607,7 @@ def run(run):
     cx = Ctx(run)
     res_u, res_s = M.tlc_parallel([
         ("ValLaws", "ValLaws_c07_quick" if quick else "ValLaws_c07_thorough", dict(coverage=False, timeout=3000)),
-        ("ValSort", "ValSort_quick" if quick else "ValSort_thorough", dict(coverage=False, timeout=3000))])
+        ("ValSort", "ValSort_quick" if quick else "ValSort_thorough", dict(coverage=False, timeout=3000, workers=8, heap="4g"))])
     # how often each action was taken, as the actions themselves report it (ValSort Act)
     acts = {}
     for a in res_s.records("ACT"):
